@@ -27,18 +27,29 @@ Returns == {<<"retnone">>, <<"retbare">>, <<"retval">>}
 \* whole source): a later `zq` in that function raises UnboundLocalError, and a nested `nonlocal zq` still compiles.
 Binders == {<<"dbg_bind">>, <<"assert_bind">>}
 ZqUsers == {<<"use_zq">>, <<"nl_zq">>}
+\* a `global zq` declaration inside an `if __debug__:` block also survives -O (it is a directive to the compiler): a later `zq = ...` in the function
+\* writes the module's zq
+Declarers == {<<"dbg_global">>}
+ZqWriters == {<<"set_zq">>}
 Symbols == {<<"pass">>, <<"ell">>, <<"imp", "a">>, <<"imp", "b">>, <<"from", "os", "x">>, <<"from", "os", "y">>, <<"from", "sys", "z">>,
             <<"assert">>, <<"dbg_else">>, <<"dbg_elif">>, <<"annval">>, <<"annnoval">>,
             <<"raise0">>, <<"raiseargs">>, <<"raisefrom">>, <<"raiseuser">>, <<"classobj">>, <<"other">>, <<"other2">>}
-           \cup Literals \cup DebugTruthy \cup DebugOther \cup Returns \cup Binders \cup ZqUsers
+           \cup Literals \cup DebugTruthy \cup DebugOther \cup Returns \cup Binders \cup ZqUsers \cup Declarers \cup ZqWriters
 
 \* ---- contexts
 Contexts == {"module", "module_top", "function", "function_if", "class", "dataclass", "dataclass_if", "dataclass_second", "dataclass_call", "dataclass_name",
-             "namedtuple", "namedtuple_name", "typeddict", "if", "else", "for",
+             "namedtuple", "namedtuple_name", "typeddict", "dataclass_after_inner", "namedtuple_after_inner", "class_after_dataclass", "if", "else", "for",
              "while_else", "try", "except", "finally", "with"}
 IsModule(c)   == c \in {"module", "module_top"}
+\* the block is not the whole suite: another statement (the nested class) precedes it, so the block itself may become empty
+HasSibling(c) == c \in {"dataclass_after_inner", "namedtuple_after_inner", "class_after_dataclass"}
 InFunction(c) == c \in {"function", "function_if"}
-ClassKind(c)  == CASE c = "class" -> "plain" [] c \in {"dataclass", "dataclass_if", "dataclass_second", "dataclass_call", "dataclass_name", "namedtuple", "namedtuple_name", "typeddict"} -> "sensitive" [] OTHER -> "none"
+\* *_after_inner: the block follows a nested plain class (with an annotated attribute of its own) in the body of the sensitive class;
+\* class_after_dataclass: the block follows a nested dataclass in the body of a plain class
+ClassKind(c)  == CASE c \in {"class", "class_after_dataclass"} -> "plain"
+                   [] c \in {"dataclass", "dataclass_if", "dataclass_second", "dataclass_call", "dataclass_name", "namedtuple", "namedtuple_name", "typeddict",
+                             "dataclass_after_inner", "namedtuple_after_inner"} -> "sensitive"
+                   [] OTHER -> "none"
 \* `nonlocal zq` compiles only inside a function that binds zq
 WellFormed(c, blk) == /\ \A k \in DOMAIN blk : (blk[k] \in Returns => InFunction(c))
                       /\ \A k \in DOMAIN blk : (blk[k] = <<"nl_zq">> => (InFunction(c) /\ \E j \in DOMAIN blk : blk[j] \in Binders))
@@ -66,6 +77,11 @@ ScopeKept(c, blk, i) == \/ ~InFunction(c)
                         \/ ~\E k \in DOMAIN blk : blk[k] \in ZqUsers
                         \/ \E j \in DOMAIN blk : j # i /\ blk[j] \in Binders
 
+\* removing the declaration keeps the meaning of zq: nothing else in the function mentions zq
+\* (a class body is a scope of its own for this purpose: with the declaration `zq = ...` writes the module's zq, without it a class attribute)
+InOwnScope(c) == InFunction(c) \/ ClassKind(c) # "none"
+DeclKept(c, blk) == ~InOwnScope(c) \/ ~\E k \in DOMAIN blk : blk[k] \in ZqUsers \cup ZqWriters \cup Binders
+
 Steps(o, c, e, blk) ==
     UNION { (
       (IF "remove_pass" \in o /\ blk[i] = <<"pass">> THEN {RemoveAt(blk, i)} ELSE {})
@@ -88,12 +104,13 @@ Steps(o, c, e, blk) ==
       \cup (IF "remove_debug" \in o /\ blk[i] \in DebugTruthy THEN {RemoveAt(blk, i)} ELSE {})
       \cup (IF "remove_debug" \in o /\ blk[i] = <<"dbg_bind">> /\ ScopeKept(c, blk, i) THEN {RemoveAt(blk, i)} ELSE {})
       \cup (IF "remove_asserts" \in o /\ blk[i] = <<"assert_bind">> /\ ScopeKept(c, blk, i) THEN {RemoveAt(blk, i)} ELSE {})
+      \cup (IF "remove_debug" \in o /\ blk[i] = <<"dbg_global">> /\ DeclKept(c, blk) THEN {RemoveAt(blk, i)} ELSE {})
       \cup (IF "remove_debug" \in o /\ blk[i] = <<"dbg_else">> THEN {ReplaceAt(blk, i, <<"nodbg">>)} ELSE {})        \* what -O runs
       \cup (IF "remove_debug" \in o /\ blk[i] = <<"dbg_elif">> THEN {ReplaceAt(blk, i, <<"elif_if">>)} ELSE {})
       ) : i \in DOMAIN blk }
 
 \* the non-empty rule: an emptied suite holds a single `0`; only a module body may become empty
-Normalise(c, blk) == IF blk = <<>> /\ ~IsModule(c) THEN << <<"zero">> >> ELSE blk
+Normalise(c, blk) == IF blk = <<>> /\ ~IsModule(c) /\ ~HasSibling(c) THEN << <<"zero">> >> ELSE blk
 
 RECURSIVE Reach(_, _, _, _, _)
 Reach(o, c, e, blks, fuel) ==
@@ -105,7 +122,7 @@ Allowed(o, c, e, blk) == { Normalise(c, b) : b \in Reach(o, c, e, {blk}, 3 * Len
 -----------------------------------------------------------------------------
 \* ---- M : the transformers, in pipeline order, always firing
 Filter(blk, keep(_)) == SelectSeq(blk, keep)
-NonEmptyM(c, blk) == IF blk = <<>> /\ ~IsModule(c) THEN << <<"zero">> >> ELSE blk
+NonEmptyM(c, blk) == IF blk = <<>> /\ ~IsModule(c) /\ ~HasSibling(c) THEN << <<"zero">> >> ELSE blk
 
 M_Literals(o, c, e, blk) ==
     IF "remove_literal_statements" \notin o THEN blk
@@ -132,7 +149,7 @@ M_Object(o, blk) == IF "remove_object_base" \in o THEN Map(blk, LAMBDA st : IF s
 M_Asserts(o, c, blk) == IF "remove_asserts" \in o THEN NonEmptyM(c, Filter(blk, LAMBDA st : st \notin {<<"assert">>, <<"assert_bind">>})) ELSE blk
 M_Debug(o, c, blk) ==
     IF "remove_debug" \notin o THEN blk
-    ELSE NonEmptyM(c, Map(Filter(blk, LAMBDA st : st \notin DebugTruthy \cup {<<"dbg_bind">>}),
+    ELSE NonEmptyM(c, Map(Filter(blk, LAMBDA st : st \notin DebugTruthy \cup {<<"dbg_bind">>, <<"dbg_global">>}),
                           LAMBDA st : IF st = <<"dbg_else">> THEN <<"nodbg">> ELSE IF st = <<"dbg_elif">> THEN <<"elif_if">> ELSE st))
 M_Return(o, c, blk) ==
     IF "remove_explicit_return_none" \notin o THEN blk
@@ -145,9 +162,12 @@ M_Brackets(o, e, blk) ==
     ELSE Map(blk, LAMBDA st : IF st = <<"raise0">> THEN <<"raise0_nb">> ELSE IF st = <<"raisefrom">> THEN <<"raisefrom_nb_both">> ELSE st)
 
 \* known deviation of the code from S (finding D27): the binder is removed although the function still looks the name up
-KF_D27(o, c, blk) == /\ InFunction(c) /\ \E k \in DOMAIN blk : blk[k] \in ZqUsers
-                     /\ \/ ("remove_debug" \in o /\ \E k \in DOMAIN blk : blk[k] = <<"dbg_bind">>)
-                        \/ ("remove_asserts" \in o /\ \E k \in DOMAIN blk : blk[k] = <<"assert_bind">>)
+KF_D27(o, c, blk) == /\ InOwnScope(c)
+                     /\ \/ /\ InFunction(c) /\ \E k \in DOMAIN blk : blk[k] \in ZqUsers
+                           /\ \/ ("remove_debug" \in o /\ \E k \in DOMAIN blk : blk[k] = <<"dbg_bind">>)
+                              \/ ("remove_asserts" \in o /\ \E k \in DOMAIN blk : blk[k] = <<"assert_bind">>)
+                        \/ /\ "remove_debug" \in o /\ \E k \in DOMAIN blk : blk[k] = <<"dbg_global">>
+                           /\ \E k \in DOMAIN blk : blk[k] \in ZqUsers \cup ZqWriters \cup Binders
 
 MOut(o, c, e, blk) ==
     M_Brackets(o, e, M_Return(o, c, M_Debug(o, c, M_Asserts(o, c, M_Object(o, M_Pass(o, c,
